@@ -28,7 +28,8 @@ CONSTANTS MaxOrd,        \* pod ordinals 0..MaxOrd
           ClaimCounts,               \* how many volume claim templates the set may have: a subset of {0, 1} (the template is "c0")
           InitMode                   \* "empty": start from an empty cluster; "any": first scramble the pods into any state
 
-VARIABLES api,      \* [set, pods, revs, pvcs, clock]  the truth (pvcs: names of the claims that exist)
+VARIABLES api,      \* [set, pods, revs, pvcs, owed, clock]  the truth (pvcs: names of the claims that exist; owed: the
+                    \*    undelivered part of the pod watch stream holds an event that will enqueue the set)
           cache,    \* [set, pods, pvcs, queued]       what the informers show; queued: the set's key is in the work queue
           budget,   \* [edits, faults, fails]
           last,     \* what the last step was (output only; hidden by the VIEW of exhaustive runs)
@@ -63,6 +64,21 @@ SetRecOf(s) == [name |-> NAME, cached |-> TRUE, replicas |-> s.replicas, slots |
 SnapS(s, fs) == [set   |-> SetRecOf(s.cache.set), pods |-> PodSeqOf2(s.cache.pods, s.api.pods), revs |-> s.api.revs, pvcs |-> s.cache.pvcs,
                  fresh |-> [exists |-> TRUE, sameUid |-> TRUE, deleting |-> s.api.set.deleting, rvSame |-> s.api.set.rv = s.cache.set.rv],
                  apods |-> ApiFromCache(PodSeqOf(s.api.pods)), apvcs |-> s.api.pvcs, faults |-> fs, cacheIntact |-> TRUE]
+
+\* The informer event handlers (stateful_set.go addPod / updatePod / deletePod; Handlers.tla has the full decision table)
+\* for the one set of this model, whose selector every pod matches: does the event that turns the cached pod `old` into
+\* `new` put the set's key on the queue?
+\* (PodEventEv: for an event that really is one - the informer delivers every version of a pod, in order)
+PodEventEv(old, new) ==
+  IF ~old.present /\ ~new.present THEN FALSE
+  ELSE IF ~old.present THEN (IF new.term THEN new.owner = "self" ELSE new.owner \in {"self", "none"})        \* add
+  ELSE IF ~new.present THEN old.owner = "self"                                                                \* delete
+  ELSE LET refChanged == old.owner # new.owner IN                                                            \* update
+       (refChanged /\ old.owner = "self") \/ new.owner = "self" \/ (new.owner = "none" /\ refChanged)
+PodEventEnq(old, new) == IF old = new THEN FALSE ELSE PodEventEv(old, new)
+\* the wake-up the undelivered part of the pod watch stream carries: set by every change of a pod in the API
+OwedBy(podsBefore, podsAfter) == \E o \in Ords : PodEventEnq(podsBefore[o], podsAfter[o])
+Q(v) == IF QueueDriven THEN v ELSE FALSE
 
 ---------------------------------------------------------------------------------------
 (* effect of API calls on the truth (the semantics MiniAPI implements)                 *)
@@ -105,8 +121,12 @@ ApplyCall(a, c) ==
        [a EXCEPT !.revs = SelectSeq(@, LAMBDA x : x.name # Name(c))]
   ELSE a
 
+\* (every call is a version of its own in the watch stream: what it owes is accumulated call by call)
 RECURSIVE ApplyCalls(_, _, _)
-ApplyCalls(a, calls, k) == IF k > Len(calls) THEN a ELSE ApplyCalls(ApplyCall(a, calls[k]), calls, k + 1)
+ApplyCalls(a, calls, k) ==
+  IF k > Len(calls) THEN a
+  ELSE LET b == ApplyCall(a, calls[k]) IN
+       ApplyCalls([b EXCEPT !.owed = IF QueueDriven THEN a.owed \/ OwedBy(a.pods, b.pods) ELSE FALSE], calls, k + 1)
 
 \* pod and revision populations of initial / scrambled states
 Migrating == InitMode = "migration"
@@ -135,16 +155,6 @@ InRange(r, S) == Desired(r, S) \subseteq Ords
 (* s = [api, cache] and Effect(s, a) is the state it leads to.  They are pure operators, so the same definitions   *)
 (* drive TLC (below) and judge executions recorded from the real system (TraceCluster.tla).                        *)
 
-\* The informer event handlers (stateful_set.go addPod / updatePod / deletePod; Handlers.tla has the full decision table)
-\* for the one set of this model, whose selector every pod matches: does the event that turns the cached pod `old` into
-\* `new` put the set's key on the queue?
-PodEventEnq(old, new) ==
-  IF old = new THEN FALSE
-  ELSE IF ~old.present THEN (IF new.term THEN new.owner = "self" ELSE new.owner \in {"self", "none"})        \* add
-  ELSE IF ~new.present THEN old.owner = "self"                                                                \* delete
-  ELSE LET refChanged == old.owner # new.owner IN                                                            \* update
-       (refChanged /\ old.owner = "self") \/ new.owner = "self" \/ (new.owner = "none" /\ refChanged)
-Q(v) == IF QueueDriven THEN v ELSE FALSE
 
 Bump(set, specChange) == [set EXCEPT !.rv = @ + 1, !.gen = IF specChange THEN @ + 1 ELSE @]
 DeleteOf(p) == IF p.phase \in {"Failed", "Succeeded", "Pending"} THEN Absent ELSE [p EXCEPT !.term = TRUE]   \* the API server's grace rule
@@ -153,7 +163,7 @@ Guard(s, a) ==
   LET api_ == s.api pod == IF "o" \in DOMAIN a THEN api_.pods[a.o] ELSE Absent IN
   CASE a.act = "Reconcile"         -> QueueDriven => s.cache.queued
     [] a.act = "SyncSetCache"      -> s.cache.set # api_.set
-    [] a.act = "SyncPodCache"      -> s.cache.pods # api_.pods
+    [] a.act = "SyncPodCache"      -> s.cache.pods # api_.pods \/ api_.owed
     [] a.act = "SyncPvcCache"      -> s.cache.pvcs # api_.pvcs
     [] a.act = "PodRunning"        -> pod.present /\ pod.phase = "Pending" /\ ~pod.term
     [] a.act = "PodReady"          -> pod.present /\ pod.phase = "Running" /\ ~pod.ready
@@ -174,7 +184,7 @@ Guard(s, a) ==
     [] a.act = "GCOrphanRev"       -> a.k \in 1..Len(api_.revs) /\ api_.revs[a.k].owner = "other"
     [] OTHER                       -> FALSE
 
-Effect(s, a) ==
+EffectRaw(s, a) ==
   LET api_ == s.api IN
   CASE a.act = "Reconcile" ->
          LET sn == SnapS(s, a.faults)
@@ -182,11 +192,11 @@ Effect(s, a) ==
              a2 == ApplyCalls(api_, r.calls, 1) IN
          \* a restarted controller re-lists (and the listed set arrives as an add event); a failed reconcile is put back
          \* (rate limited), a successful one leaves the queue empty
-         [api |-> a2, cache |-> IF r.res = "died" THEN [set |-> a2.set, pods |-> a2.pods, pvcs |-> a2.pvcs, queued |-> Q(TRUE)]
-                                ELSE [s.cache EXCEPT !.queued = Q(r.res # "ok")]]
+         IF r.res = "died" THEN [api |-> [a2 EXCEPT !.owed = FALSE],       \* (the re-list shows the latest state: nothing is owed)
+                                 cache |-> [set |-> a2.set, pods |-> a2.pods, pvcs |-> a2.pvcs, queued |-> Q(TRUE)]]
+         ELSE [api |-> a2, cache |-> [s.cache EXCEPT !.queued = Q(r.res # "ok")]]
     [] a.act = "SyncSetCache"      -> [s EXCEPT !.cache.set = api_.set, !.cache.queued = Q(TRUE)]      \* the set handlers always enqueue
-    [] a.act = "SyncPodCache"      -> [s EXCEPT !.cache.pods = api_.pods,
-                                                !.cache.queued = Q(@ \/ \E o \in Ords : PodEventEnq(s.cache.pods[o], api_.pods[o]))]
+    [] a.act = "SyncPodCache"      -> [s EXCEPT !.cache.pods = api_.pods, !.cache.queued = Q(@ \/ api_.owed), !.api.owed = FALSE]
     [] a.act = "SyncPvcCache"      -> [s EXCEPT !.cache.pvcs = api_.pvcs]
     [] a.act = "PodRunning"        -> [s EXCEPT !.api.pods[a.o].phase = "Running"]
     [] a.act = "PodReady"          -> [s EXCEPT !.api.pods[a.o].ready = TRUE]
@@ -211,6 +221,13 @@ Effect(s, a) ==
                                       [s EXCEPT !.api.pods[a.o] = p, !.cache.pods[a.o] = p, !.api.clock = @ + 1,
                                                 !.api.pvcs = @ \cup cl, !.cache.pvcs = @ \cup cl]
     [] OTHER                       -> s
+
+\* every change of a pod made by anybody but the controller is one more version in the watch stream, too (the initial
+\* population of Scramble is in the cache from the start and owes nothing)
+Effect(s, a) ==
+  LET t == EffectRaw(s, a) IN
+  IF ~QueueDriven \/ a.act \in {"Reconcile", "SyncPodCache", "Scramble"} THEN t
+  ELSE [t EXCEPT !.api.owed = s.api.owed \/ OwedBy(s.api.pods, t.api.pods)]
 
 \* who pays for what
 IsEdit(a)    == a.act \in {"SetReplicas", "SetSlots", "ScaleInAt", "EditTemplate", "SetPartition", "Pause", "DeletePodByHand"}
@@ -297,9 +314,9 @@ MigratedSets(rs) == {s \in InitSets(rs) : /\ rs # <<>> /\ s.tmpl = rs[Len(rs)].t
                                               \/ (s.status.curRev = "" /\ s.status.updRev = ""))}
 
 Init == /\ IF InitMode = "empty"
-           THEN \E s \in InitSets(<<>>) : GoodSet(s) /\ api = [set |-> s, pods |-> [o \in Ords |-> Absent], revs |-> <<>>, pvcs |-> {}, clock |-> 10]
+           THEN \E s \in InitSets(<<>>) : GoodSet(s) /\ api = [set |-> s, pods |-> [o \in Ords |-> Absent], revs |-> <<>>, pvcs |-> {}, owed |-> FALSE, clock |-> 10]
                                                     /\ cache = [set |-> s, pods |-> [o \in Ords |-> Absent], pvcs |-> {}, queued |-> Q(TRUE)]
-           ELSE /\ api = [set |-> BlankSet, pods |-> [o \in Ords |-> Absent], revs |-> <<>>, pvcs |-> {}, clock |-> 10]
+           ELSE /\ api = [set |-> BlankSet, pods |-> [o \in Ords |-> Absent], revs |-> <<>>, pvcs |-> {}, owed |-> FALSE, clock |-> 10]
                 /\ cache = [set |-> BlankSet, pods |-> [o \in Ords |-> Absent], pvcs |-> {}, queued |-> FALSE]
         /\ budget = [edits |-> Edits, faults |-> Faults, fails |-> Fails]
         /\ last = [act |-> "Init"]
@@ -335,6 +352,7 @@ PodsRightS(s) ==
         /\ p.phase = "Running" /\ p.ready /\ ~p.term /\ p.owner = "self"
         /\ (a.set.strat \in {"RollingUpdate", "RollingUpdateBare"} /\ o >= a.set.part) => TmplOfRevS(s, p.rev) = a.set.tmpl
 CaughtUpS(s) == SameSet(s.cache.set, s.api.set) /\ s.cache.set.rv = s.api.set.rv /\ s.cache.pods = s.api.pods /\ s.cache.pvcs = s.api.pvcs
+                /\ ~s.api.owed
 NoWritesS(s) == LET r == Sync(SnapS(s, <<>>)) IN r.res = "ok" /\ \A k \in 1..Len(r.calls) : ~IsWrite(r.calls[k])
 
 \* the fixed point of C02: the pods are right, the caches have caught up, and a reconcile has nothing left to write
